@@ -1430,7 +1430,7 @@ Theorem C02_judge_bridge_core :
          (p : pstate) (st' : state) (outs : list output) (vis : output -> bool) (closed : list nat),
   nth_opt (c_listens (pc_cfg pc)) li = Some lc -> nth_p (st_proxies st) li = Some p ->
   j_read data = Some jin -> parse_message data = Ok (m, rest) ->
-  via_domain m -> via_lead_ok m ->
+  via_domain m ->
   proxy_step fx (pc_cfg pc) now br st (EvUdp li src sport data) = Ok (st', outs) ->
   (forall v1 v2 vrest m4 pins',
      is_response m = true ->
@@ -1449,7 +1449,7 @@ Theorem C02_judge_bridge_step_udp :
          (v1 v2 : via_param) (vrest : list via_param) (ip : bytes),
   nth_opt (c_listens (pc_cfg pc)) li = Some lc -> nth_p (st_proxies st) li = Some p ->
   j_read data = Some jin -> parse_message data = Ok (m, rest) ->
-  via_domain m -> via_lead_ok m ->
+  via_domain m ->
   flat_view (via_hdrs m) = v1 :: v2 :: vrest ->
   to_lower (v_transport v2) = s2b "udp" ->
   get_ip (pc_cfg pc) (hop_host v2) = Some ip -> resolvable ip (hop_port v2) = true ->
@@ -1477,7 +1477,7 @@ Theorem C02_judge_bridge_step_unsupported :
          (v1 v2 : via_param) (vrest : list via_param),
   nth_opt (c_listens (pc_cfg pc)) li = Some lc -> nth_p (st_proxies st) li = Some p ->
   j_read data = Some jin -> parse_message data = Ok (m, rest) ->
-  via_domain m -> via_lead_ok m ->
+  via_domain m ->
   flat_view (via_hdrs m) = v1 :: v2 :: vrest ->
   supported_proto (to_lower (v_transport v2)) = false ->
   proxy_step fx (pc_cfg pc) now br st (EvUdp li src sport data) = Ok (st', outs) ->
@@ -1490,7 +1490,7 @@ Theorem C02_judge_bridge_step_unresolved :
          (v1 v2 : via_param) (vrest : list via_param),
   nth_opt (c_listens (pc_cfg pc)) li = Some lc -> nth_p (st_proxies st) li = Some p ->
   j_read data = Some jin -> parse_message data = Ok (m, rest) ->
-  via_domain m -> via_lead_ok m ->
+  via_domain m ->
   flat_view (via_hdrs m) = v1 :: v2 :: vrest ->
   get_ip (pc_cfg pc) (hop_host v2) = None ->
   proxy_step fx (pc_cfg pc) now br st (EvUdp li src sport data) = Ok (st', outs) ->
@@ -1503,7 +1503,7 @@ Theorem C02_judge_bridge_step_tcp_partial :
          (v1 v2 : via_param) (vrest : list via_param) (ip : bytes),
   nth_opt (c_listens (pc_cfg pc)) li = Some lc -> nth_p (st_proxies st) li = Some p ->
   j_read data = Some jin -> parse_message data = Ok (m, rest) ->
-  via_domain m -> via_lead_ok m ->
+  via_domain m ->
   flat_view (via_hdrs m) = v1 :: v2 :: vrest ->
   to_lower (v_transport v2) = s2b "tcp" ->
   get_ip (pc_cfg pc) (hop_host v2) = Some ip ->
@@ -1520,7 +1520,7 @@ Theorem C02_judge_bridge_step_tcp_sent :
          (v1 v2 : via_param) (vrest : list via_param) (ip : bytes),
   nth_opt (c_listens (pc_cfg pc)) li = Some lc -> nth_p (st_proxies st) li = Some p ->
   j_read data = Some jin -> parse_message data = Ok (m, rest) ->
-  via_domain m -> via_lead_ok m ->
+  via_domain m ->
   flat_view (via_hdrs m) = v1 :: v2 :: vrest ->
   to_lower (v_transport v2) = s2b "tcp" ->
   get_ip (pc_cfg pc) (hop_host v2) = Some ip ->
@@ -1538,7 +1538,7 @@ Theorem C02_judge_bridge_step_tcp_fresh :
   tcp_agree pc stj st ip (hop_port v2) ->
   nth_opt (c_listens (pc_cfg pc)) li = Some lc -> nth_p (st_proxies st) li = Some p ->
   j_read data = Some jin -> parse_message data = Ok (m, rest) ->
-  via_domain m -> via_lead_ok m ->
+  via_domain m ->
   flat_view (via_hdrs m) = v1 :: v2 :: vrest ->
   to_lower (v_transport v2) = s2b "tcp" ->
   get_ip (pc_cfg pc) (hop_host v2) = Some ip ->
@@ -1980,3 +1980,252 @@ Theorem C06_relayed_request : forall e peer peer_port from rs tcp m0 x x',
         end.
 Proof. first [ exact C03.C06_relayed_request | intros; eapply C03.C06_relayed_request; eassumption ]. Qed.
 End P_C06.
+
+(* ------------------------------------------------------------------ TB *)
+From Model Require Import Bytes Wire Uri Hdr Message Msg StaticRoute RoundRobin Pins Proxy RunProxy SpecC14 SpecProxy SpecProxy2 ProxyTB.
+From Model.proofs Require C04 C06 TB.
+Section P_TB.
+Import C04 C06 TB.
+Theorem TB_conservative_entry : forall tb fx c now br st cache ev,
+  match ev_li st ev with Some li => is_tb tb li = false | None => True end ->
+  proxy_step_tb tb fx c now br st cache ev = lift_step (proxy_step fx c now br st ev) cache.
+Proof. first [ exact TB.TB_conservative_entry | intros; eapply TB.TB_conservative_entry; eassumption ]. Qed.
+Theorem TB_conservative : forall tb fx c now br st cache ev,
+  (forall li, is_tb tb li = false) ->
+  proxy_step_tb tb fx c now br st cache ev = lift_step (proxy_step fx c now br st ev) cache.
+Proof. first [ exact TB.TB_conservative | intros; eapply TB.TB_conservative; eassumption ]. Qed.
+Theorem TB_conservative_history : forall tb fx c, (forall li, is_tb tb li = false) ->
+  forall h st cache, run_tb tb fx c st cache h = lift_run (C04.run fx c st h) cache.
+Proof. first [ exact TB.TB_conservative_history | intros; eapply TB.TB_conservative_history; eassumption ]. Qed.
+Theorem TB_copy_faithful : forall e from m x cache,
+  reaches_backend e from m = false ->
+  handle_message_tb e from m x cache = lift_hm (handle_message e from m x) cache.
+Proof. first [ exact TB.TB_copy_faithful | intros; eapply TB.TB_copy_faithful; eassumption ]. Qed.
+Theorem TB_copy_faithful_backend : forall e from m x cache,
+  reaches_backend e from m = true ->
+  let m1 := fst (next_request_hop (c_keep_next_hop (e_cfg e)) (route_table_of (e_cfg e)) m) in
+  handle_message_tb e from m x cache = send_to_backend_tb e m1 x cache /\
+  handle_message e from m x = send_to_backend e m1 x.
+Proof. first [ exact TB.TB_copy_faithful_backend | intros; eapply TB.TB_copy_faithful_backend; eassumption ]. Qed.
+Theorem TB_copy_faithful_response : forall e from m x cache,
+  is_request m = false ->
+  handle_message_tb e from m x cache = (let '(x', m') := handle_message e from m x in (x', m', cache)).
+Proof. first [ exact TB.TB_copy_faithful_response | intros; eapply TB.TB_copy_faithful_response; eassumption ]. Qed.
+Theorem TB_copy_faithful_hop : forall e from m x cache v,
+  snd (next_request_hop (c_keep_next_hop (e_cfg e)) (route_table_of (e_cfg e)) m) = Ok v ->
+  handle_message_tb e from m x cache = (let '(x', m') := handle_message e from m x in (x', m', cache)).
+Proof. first [ exact TB.TB_copy_faithful_hop | intros; eapply TB.TB_copy_faithful_hop; eassumption ]. Qed.
+Theorem TB_copy_faithful_not_mine : forall e from m x cache,
+  is_my_message (new_my_name (c_name (e_cfg e))) from
+    (fst (next_request_hop (c_keep_next_hop (e_cfg e)) (route_table_of (e_cfg e)) m)) = false ->
+  handle_message_tb e from m x cache = (let '(x', m') := handle_message e from m x in (x', m', cache)).
+Proof. first [ exact TB.TB_copy_faithful_not_mine | intros; eapply TB.TB_copy_faithful_not_mine; eassumption ]. Qed.
+Theorem TB_copy_faithful_process : forall e peer peer_port from rs tcp m0 x cache,
+  match pm_reach e peer peer_port from rs tcp m0 x with
+  | Ok (m5, _) => reaches_backend e from m5 = false
+  | _ => True
+  end ->
+  process_message_tb e peer peer_port from rs tcp m0 x cache =
+  match process_message e peer peer_port from rs tcp m0 x with
+  | Ok x' => Ok (x', cache) | Err => Err | Panic => Panic end.
+Proof. first [ exact TB.TB_copy_faithful_process | intros; eapply TB.TB_copy_faithful_process; eassumption ]. Qed.
+Theorem TB_copy_faithful_process_response : forall e peer peer_port from rs tcp m x cache,
+  is_request m = false ->
+  process_message_tb e peer peer_port from rs tcp m x cache =
+  match process_message e peer peer_port from rs tcp m x with
+  | Ok x' => Ok (x', cache) | Err => Err | Panic => Panic end.
+Proof. first [ exact TB.TB_copy_faithful_process_response | intros; eapply TB.TB_copy_faithful_process_response; eassumption ]. Qed.
+Theorem TB_send_reuse : forall e a g b x cache pos c,
+  last_index_byte ":"%char a = Some pos ->
+  alookup (tb_key (e_li e) a g) cache = Some c -> conn_open (x_conns x) c = true ->
+  tcp_backend_send e a g b x cache = (x, cache, [(DConn c, b)], true).
+Proof. first [ exact TB.TB_send_reuse | intros; eapply TB.TB_send_reuse; eassumption ]. Qed.
+Theorem TB_send_dial : forall e a g b x cache pos,
+  last_index_byte ":"%char a = Some pos ->
+  let ip := firstn pos a in
+  let port := atoi_val (skipn (S pos) a) in
+  let key := tb_key (e_li e) a g in
+  let c := w_next_conn (x_world x) in
+  (* no cached connection, or the cached one is closed *)
+  (alookup key cache = None \/ exists c0, alookup key cache = Some c0 /\ conn_open (x_conns x) c0 = false) ->
+  (* the backend accepts connections *)
+  existsb (fun '(h, pt) => beq h ip && Z.eqb pt port) (w_tcp_listeners (x_world x)) = true ->
+  exists x' cache',
+    tcp_backend_send e a g b x cache = (x', cache', [(DDial ip port c, []); (DConn c, b)], true) /\
+    x_conns x' = x_conns x ++ [{| cn_id := c; cn_li := e_li e; cn_open := true; cn_peer := ip; cn_peer_port := port;
+                                  cn_from := tb_local; cn_received_support := e_item_rs e |}] /\
+    conn_open (x_conns x') c = true /\
+    alookup key cache' = Some c /\
+    cache' = aset key c (tb_forget key cache) /\
+    w_next_conn (x_world x') = S c /\ w_tcp_listeners (x_world x') = w_tcp_listeners (x_world x) /\
+    x_p x' = x_p x /\ x_learned x' = x_learned x /\ x_outs x' = x_outs x.
+Proof. first [ exact TB.TB_send_dial | intros; eapply TB.TB_send_dial; eassumption ]. Qed.
+Theorem TB_send_refused : forall e a g b x cache pos,
+  last_index_byte ":"%char a = Some pos ->
+  let ip := firstn pos a in
+  let port := atoi_val (skipn (S pos) a) in
+  let key := tb_key (e_li e) a g in
+  (alookup key cache = None \/ exists c0, alookup key cache = Some c0 /\ conn_open (x_conns x) c0 = false) ->
+  existsb (fun '(h, pt) => beq h ip && Z.eqb pt port) (w_tcp_listeners (x_world x)) = false ->
+  exists cache',
+    (* no output, no new connection, nothing else changed *)
+    tcp_backend_send e a g b x cache = (x, cache', [], false) /\
+    (* the stale entry, if any, is gone; every other entry is as before *)
+    alookup key cache' = None /\ cache' = tb_forget key cache /\
+    (forall k, k <> key -> alookup k cache' = alookup k cache).
+Proof. first [ exact TB.TB_send_refused | intros; eapply TB.TB_send_refused; eassumption ]. Qed.
+Theorem TB_send_malformed : forall e a g b x cache,
+  last_index_byte ":"%char a = None -> tcp_backend_send e a g b x cache = (x, cache, [], false).
+Proof. first [ exact TB.TB_send_malformed | intros; eapply TB.TB_send_malformed; eassumption ]. Qed.
+Theorem TB_send_one_message : forall e a g b x cache x' cache' outs ok,
+  tcp_backend_send e a g b x cache = (x', cache', outs, ok) ->
+  C06.one_msg b outs /\
+  (ok = true -> C06.msg_count outs = 1%nat) /\ (ok = false -> outs = []) /\
+  x_p x' = x_p x /\ x_learned x' = x_learned x /\ x_outs x' = x_outs x /\
+  (exists extra, x_conns x' = x_conns x ++ extra) /\
+  w_tcp_listeners (x_world x') = w_tcp_listeners (x_world x).
+Proof. first [ exact TB.TB_send_one_message | intros; eapply TB.TB_send_one_message; eassumption ]. Qed.
+Theorem TB_payload_agrees : forall e m x cache,
+  let xu := fst (send_to_backend e m x) in
+  let mu := snd (send_to_backend e m x) in
+  let xt := fst (fst (send_to_backend_tb e m x cache)) in
+  let mt := snd (fst (send_to_backend_tb e m x cache)) in
+  exists extra_u extra_t,
+    x_outs xu = x_outs x ++ extra_u /\ x_outs xt = x_outs x ++ extra_t /\
+    (forall t0, first_transport (e_lc e) = Some t0 ->
+       let m2 := px_add_record_route (pa_must_rr (wire_proxy (e_lc e))) t0
+                   (px_add_via e t0 (fst (find_backend_by_dialog e (x_p x) m))) in
+       C06.one_msg (write_message m2) extra_u /\ C06.one_msg (write_message m2) extra_t) /\
+    (first_transport (e_lc e) = None -> extra_u = [] /\ extra_t = []) /\
+    (stb_ok e m x = false -> extra_u = []) /\
+    (stb_ok_tb e m x cache = true -> C06.msg_count extra_t = 1%nat) /\
+    (stb_ok_tb e m x cache = false -> extra_t = []) /\
+    (stb_ok e m x = stb_ok_tb e m x cache -> mt = mu /\ ps_pins (x_p xt) = ps_pins (x_p xu)) /\
+    ps_rr (x_p xt) = ps_rr (x_p xu) /\ ps_backends (x_p xt) = ps_backends (x_p xu) /\
+    ps_has_rr (x_p xt) = ps_has_rr (x_p xu) /\ x_learned xt = x_learned xu.
+Proof. first [ exact TB.TB_payload_agrees | intros; eapply TB.TB_payload_agrees; eassumption ]. Qed.
+Theorem TB_rotation_agrees : forall e m x cache,
+  ps_rr (x_p (fst (fst (send_to_backend_tb e m x cache)))) = ps_rr (x_p (fst (send_to_backend e m x))) /\
+  ps_backends (x_p (fst (fst (send_to_backend_tb e m x cache)))) = ps_backends (x_p (fst (send_to_backend e m x))).
+Proof. first [ exact TB.TB_rotation_agrees | intros; eapply TB.TB_rotation_agrees; eassumption ]. Qed.
+Theorem TB_at_most_one_message : forall e peer peer_port from rs tcp m x cache x' cache',
+  process_message_tb e peer peer_port from rs tcp m x cache = Ok (x', cache') ->
+  exists extra, x_outs x' = x_outs x ++ extra /\ (C06.msg_count extra <= 1)%nat.
+Proof. first [ exact TB.TB_at_most_one_message | intros; eapply TB.TB_at_most_one_message; eassumption ]. Qed.
+Theorem TB_at_most_one : forall tb fx c now br st cache li src sport data st' cache' outs,
+  proxy_step_tb tb fx c now br st cache (EvUdp li src sport data) = Ok (st', cache', outs) ->
+  (C06.msg_count outs <= 1)%nat.
+Proof. first [ exact TB.TB_at_most_one | intros; eapply TB.TB_at_most_one; eassumption ]. Qed.
+Theorem TB_at_most_one_tcp : forall tb fx c now br st cache cid data st' cache' outs,
+  proxy_step_tb tb fx c now br st cache (EvTcpData cid data) = Ok (st', cache', outs) ->
+  exists chunks, outs = List.concat chunks /\
+                 (List.length chunks <= List.length (parse_stream (S (List.length data)) data))%nat /\
+                 Forall (fun ch => (C06.msg_count ch <= 1)%nat) chunks.
+Proof. first [ exact TB.TB_at_most_one_tcp | intros; eapply TB.TB_at_most_one_tcp; eassumption ]. Qed.
+Theorem TB_sticky_step : forall e m x cache t0 d addr g ex pos,
+  fx_indialog_invite (e_fx e) = true ->
+  ps_has_rr (x_p x) = true -> first_transport (e_lc e) = Some t0 ->
+  is_request m = true -> C04.dialog_of m = Ok d ->
+  C04.pin_at d (pin_val_backend addr g) ex (ps_pins (x_p x)) -> e_now e < ex ->
+  alookup addr (ps_backends (x_p x)) = Some g -> C04.gen_ok g ->
+  last_index_byte ":"%char addr = Some pos ->
+  let ip := firstn pos addr in
+  let port := atoi_val (skipn (S pos) addr) in
+  let key := tb_key (e_li e) addr g in
+  let n := w_next_conn (x_world x) in
+  let b := C04.fwd_bytes e t0 (x_p x) m in
+  let x' := fst (fst (send_to_backend_tb e m x cache)) in
+  let cache' := snd (send_to_backend_tb e m x cache) in
+  (* where the bytes go *)
+  match tb_usable x key cache with
+  | Some c => x_outs x' = x_outs x ++ [(DConn c, b)] /\ x_conns x' = x_conns x /\ x_world x' = x_world x /\ cache' = cache
+  | None =>
+      if tb_listens x ip port
+      then x_outs x' = x_outs x ++ [(DDial ip port n, []); (DConn n, b)] /\
+           x_conns x' = x_conns x ++ [{| cn_id := n; cn_li := e_li e; cn_open := true; cn_peer := ip; cn_peer_port := port;
+                                         cn_from := tb_local; cn_received_support := e_item_rs e |}] /\
+           w_next_conn (x_world x') = S n /\ alookup key cache' = Some n
+      else x_outs x' = x_outs x /\ x_conns x' = x_conns x /\ x_world x' = x_world x /\ alookup key cache' = None
+  end /\
+  (* the rotation did not move, the members did not change *)
+  ps_rr (x_p x') = ps_rr (x_p x) /\ ps_backends (x_p x') = ps_backends (x_p x) /\ x_learned x' = x_learned x /\
+  (* the pin stays, except after a terminating NOTIFY which removes it after having used it *)
+  ((forall c, snd (s_get_cseq m) = Ok c -> C04.trans_key e c <> d) ->
+   if C04.notify_terminated (C04.req_method m) m
+   then alookup d (p_tab (ps_pins (x_p x'))) = None
+   else C04.pin_at d (pin_val_backend addr g) ex (ps_pins (x_p x'))).
+Proof. first [ exact TB.TB_sticky_step | intros; eapply TB.TB_sticky_step; eassumption ]. Qed.
+Theorem TB_sticky_same_message : forall e m x cache t0 d addr g ex pos,
+  fx_indialog_invite (e_fx e) = true ->
+  ps_has_rr (x_p x) = true -> first_transport (e_lc e) = Some t0 ->
+  is_request m = true -> C04.dialog_of m = Ok d ->
+  C04.pin_at d (pin_val_backend addr g) ex (ps_pins (x_p x)) -> e_now e < ex ->
+  alookup addr (ps_backends (x_p x)) = Some g -> C04.gen_ok g ->
+  last_index_byte ":"%char addr = Some pos ->
+  fits_datagram (C04.fwd_bytes e t0 (x_p x) m) = true ->
+  (tb_usable x (tb_key (e_li e) addr g) cache <> None \/
+   tb_listens x (firstn pos addr) (atoi_val (skipn (S pos) addr)) = true) ->
+  snd (fst (send_to_backend_tb e m x cache)) = snd (send_to_backend e m x) /\
+  ps_pins (x_p (fst (fst (send_to_backend_tb e m x cache)))) = ps_pins (x_p (fst (send_to_backend e m x))).
+Proof. first [ exact TB.TB_sticky_same_message | intros; eapply TB.TB_sticky_same_message; eassumption ]. Qed.
+Theorem TB_unpinned_step : forall e m x cache t0,
+  ps_has_rr (x_p x) = true -> first_transport (e_lc e) = Some t0 -> is_request m = true ->
+  (forall d, C04.dialog_of m = Ok d -> snd (pins_get (e_now e) d (ps_pins (x_p x))) = None) ->
+  let b := C04.fwd_bytes e t0 (x_p x) m in
+  let x' := fst (fst (send_to_backend_tb e m x cache)) in
+  let cache' := snd (send_to_backend_tb e m x cache) in
+  ps_rr (x_p x') = fst (rr_dispatch (ps_rr (x_p x))) /\
+  ps_rr (x_p x') = ps_rr (x_p (fst (send_to_backend e m x))) /\
+  ps_backends (x_p x') = ps_backends (x_p x) /\
+  match snd (rr_dispatch (ps_rr (x_p x))) with
+  | Some a =>
+      match alookup a (ps_backends (x_p x)) with
+      | Some g =>
+          let '(xs, cs, outs, ok) := tcp_backend_send e a g b x cache in
+          x_outs x' = x_outs x ++ outs /\ x_conns x' = x_conns xs /\ x_world x' = x_world xs /\ cache' = cs
+      | None => x_outs x' = x_outs x /\ x_conns x' = x_conns x /\ x_world x' = x_world x /\ cache' = cache
+      end
+  | None => x_outs x' = x_outs x /\ x_conns x' = x_conns x /\ x_world x' = x_world x /\ cache' = cache
+  end.
+Proof. first [ exact TB.TB_unpinned_step | intros; eapply TB.TB_unpinned_step; eassumption ]. Qed.
+Theorem TB_remove_closes : forall tb fx c now br st cache li addr p g cid,
+  is_tb tb li = true -> nth_p (st_proxies st) li = Some p ->
+  mem_bytes addr (rr_map (ps_rr p)) = true -> alookup addr (ps_backends p) = Some g ->
+  alookup (tb_key li addr g) cache = Some cid ->
+  exists st' stp p',
+    proxy_step_tb tb fx c now br st cache (EvBackendRemove li addr) = Ok (st', cache, []) /\
+    proxy_step fx c now br st (EvBackendRemove li addr) = Ok (stp, []) /\
+    st_conns st' = close_conn cid (st_conns st) /\ st_conns stp = st_conns st /\
+    (NoDup (map cn_id (st_conns st)) -> conn_open (st_conns st') cid = false) /\
+    (forall c', c' <> cid -> conn_open (st_conns st') c' = conn_open (st_conns st) c') /\
+    st_proxies st' = st_proxies stp /\ st_learned st' = st_learned stp /\ st_world st' = st_world stp /\
+    nth_p (st_proxies st') li = Some p' /\
+    ps_backends p' = adel addr (ps_backends p) /\ alookup addr (ps_backends p') = None /\
+    ps_rr p' = fst (rr_remove addr (ps_rr p)) /\ mem_bytes addr (rr_map (ps_rr p')) = false.
+Proof. first [ exact TB.TB_remove_closes | intros; eapply TB.TB_remove_closes; eassumption ]. Qed.
+Theorem TB_remove_no_cached : forall tb fx c now br st cache li addr,
+  (forall p g, nth_p (st_proxies st) li = Some p -> mem_bytes addr (rr_map (ps_rr p)) = true ->
+               alookup addr (ps_backends p) = Some g -> alookup (tb_key li addr g) cache = None) ->
+  proxy_step_tb tb fx c now br st cache (EvBackendRemove li addr) =
+  lift_step (proxy_step fx c now br st (EvBackendRemove li addr)) cache.
+Proof. first [ exact TB.TB_remove_no_cached | intros; eapply TB.TB_remove_no_cached; eassumption ]. Qed.
+Theorem TB_cache_ok_step : forall tb fx c now br st cache ev st' cache' outs,
+  cache_ok (st_conns st) cache ->
+  proxy_step_tb tb fx c now br st cache ev = Ok (st', cache', outs) -> cache_ok (st_conns st') cache'.
+Proof. first [ exact TB.TB_cache_ok_step | intros; eapply TB.TB_cache_ok_step; eassumption ]. Qed.
+Theorem TB_cache_ok_history : forall tb fx c h st cache st' cache' outss,
+  cache_ok (st_conns st) cache -> run_tb tb fx c st cache h = Ok (st', cache', outss) ->
+  cache_ok (st_conns st') cache'.
+Proof. first [ exact TB.TB_cache_ok_history | intros; eapply TB.TB_cache_ok_history; eassumption ]. Qed.
+Theorem TB_cached_peer : forall tb fx c h st0 st cache outss,
+  run_tb tb fx c st0 [] h = Ok (st, cache, outss) ->
+  forall li a g cid pos,
+    alookup (tb_key li a g) cache = Some cid -> last_index_byte ":"%char a = Some pos ->
+    exists cn, In cn (st_conns st) /\ cn_id cn = cid /\ cn_li cn = li /\
+               cn_peer cn = firstn pos a /\ cn_peer_port cn = atoi_val (skipn (S pos) a).
+Proof. first [ exact TB.TB_cached_peer | intros; eapply TB.TB_cached_peer; eassumption ]. Qed.
+Theorem TB_cached_has_port : forall tb fx c h st0 st cache outss li a g cid,
+  run_tb tb fx c st0 [] h = Ok (st, cache, outss) -> alookup (tb_key li a g) cache = Some cid ->
+  last_index_byte ":"%char a <> None.
+Proof. first [ exact TB.TB_cached_has_port | intros; eapply TB.TB_cached_has_port; eassumption ]. Qed.
+End P_TB.
